@@ -14,9 +14,16 @@ type genCtx struct {
 	r       *simrt.RNG
 	nextVal int64
 	tier    string
+	nilP    float64 // share of stored values that are the zero / nil value
 }
 
-func (g *genCtx) val() int64 { g.nextVal++; return g.nextVal }
+func (g *genCtx) val() int64 {
+	if g.nilP > 0 && g.r.Bool(g.nilP) {
+		return 0 // the zero value: a nil interface / nil pointer for the any- and pointer-valued kinds
+	}
+	g.nextVal++
+	return g.nextVal
+}
 
 func (g *genCtx) pick(ws []int) int {
 	t := 0
@@ -345,6 +352,12 @@ func genConc(prop string, seed uint64, tier string) *ConcScenario {
 	sc.Epoch = time.Date(2000, 1, 1, 0, 0, 0, 0, time.UTC).UnixNano() + g.r.Int63n(int64(200*365*24)*int64(time.Hour))
 	sc.PrefillKeep = -1
 	maxTasks, maxOps, maxPhases := g.dims()
+	switch prop {
+	case "C02", "C03", "C04", "C07", "C14", "C16":
+		// nil interface values / nil pointers are ordinary values (not for the
+		// properties whose rules attribute reports and hand-overs by value id)
+		g.nilP = 0.04
+	}
 
 	family := "map"
 	switch prop {
